@@ -590,6 +590,8 @@ func headersFromContext(ctx context.Context) http.Header {
 	h := http.Header{}
 	if md, ok := metadata.FromOutgoingContext(ctx); ok {
 		toHeaders(md, h, "")
+		// reserved name: only the context's deadline may produce this header
+		h.Del("GRPC-Timeout")
 	}
 	if deadline, ok := ctx.Deadline(); ok {
 		timeout := time.Until(deadline)
